@@ -664,4 +664,85 @@ def run(rep, ctx):
             c = [x for x in ncalls(f, "narrow_result_bounds")]
             t = norm(render(c[0])) if c else ""
             b1.check(len(c) == 1 and cv(call_args(c[0])[0]) == 0 and "max(-lb,ub)" in t, "Abs-bounds", short_loc(f.loc), "|x| on a zero-crossing domain: [0, max(-lb, ub)]", t[:100])
+    # ---- D1: bounds pushed down from a result to its arguments ---------------------------------------------
+    d1 = rep.rule("C06.D1", "TABLE", "bounds handed down from a result to an argument variable hold for every value the argument can take: "
+                  "not: [1-ub, 1-lb]; and: [lb, 1]; or: [0, ub]; logical arguments [0, 1]; everything else unbounded", floor=12)
+    Fd = Facts(export_many([dict(unit=U, fn=[r"mp::ConstraintPropagatorsDown::.*"], repo=repo)]))
+    props = [f for f in Fd.funcs if not f.is_dependent() and f.cfg is not None and f.qn.startswith("mp::ConstraintPropagatorsDown::")]
+    if len(props) < 20:
+        raise AnalysisBroken("C06.D1: only %d down-propagators" % len(props))
+    INF_LO, INF_HI = {"-inf"}, {"+inf"}
+    LOGIC = ({"0", "-inf"}, {"1", "+inf"})
+    KINDS = [(r"NotConstraintId", "not", ({"1-ub", "0", "-inf"}, {"1-lb", "1", "+inf"}),
+              "not(a) in [lb, ub] means a in [1-ub, 1-lb]"),
+             (r"AndConstraintId", "and", ({"lb", "0", "-inf"}, {"1", "+inf"}),
+              "a conjunction >= lb forces every argument >= lb; a false conjunction (ub = 0) needs only ONE false argument, so ub is no bound of an argument"),
+             (r"OrConstraintId", "or", ({"0", "-inf"}, {"ub", "1", "+inf"}),
+              "a disjunction <= ub forces every argument <= ub; a true disjunction (lb = 1) needs only ONE true argument, so lb is no bound of an argument"),
+             (r"ImplicationConstraintId", "implication", LOGIC, "condition and branches of an implication are logical values in [0, 1]"),
+             (r"ComplementarityConstraint<", "complementarity", ({"lb", "-inf"}, {"ub", "+inf"}),
+              "frozen: the 4-argument overload forwards its bounds; it is reached only from the root overload, which passes infinite bounds (checked)")]
+
+    def normb(f, e):
+        t = _re.sub(r"\s+", "", render(strip(e))).replace("this->", "")
+        t = _re.sub(r"(static_cast<Impl\*>\(this\)->|static_cast<constImpl\*>\(this\)->)", "", t)
+        if t.endswith("MinusInfty()"):
+            return "-inf"
+        if t.endswith("Infty()"):
+            return "+inf"
+        c_ = cv(e)
+        if c_ is not None and float(c_) in (0.0, 1.0):
+            return "%d" % int(float(c_))
+        names = {p_.get("declId"): k_ for k_, p_ in zip(("con", "lb", "ub", "ctx"), f.params)} if len(f.params) == 4 else {}
+        e0 = strip(e)
+        if e0["k"] == "DeclRefExpr" and e0.get("declId") in names:
+            return names[e0["declId"]]
+        if e0["k"] == "BinaryOperator" and e0.get("op") == "-" and cv(kids(e0)[0]) is not None and float(cv(kids(e0)[0])) == 1.0:
+            r_ = strip(kids(e0)[1])
+            if r_["k"] == "DeclRefExpr" and r_.get("declId") in names:
+                return "1-" + names[r_["declId"]]
+        return t
+    seen_d = set()
+    for f in sorted(props, key=lambda g: g.full):
+        name = f.qn.split("::")[-1]
+        t0 = ((f.params[0].get("ct") or f.params[0].get("t") or "") if f.params else "").replace("const ", "").replace(" &", "")
+        if name == "PropagateResult":
+            kind, allowed, why = "other", (INF_LO, INF_HI), "nothing is known about how the arguments relate to the result's bounds"
+            for pat, k_, al_, wy_ in KINDS:
+                if _re.search(pat, t0):
+                    kind, allowed, why = k_, al_, wy_
+            m_ = _re.search(r"mp::([A-Za-z_0-9]+)ConstraintId", t0)
+            label = (m_.group(1)) if m_ else _re.sub(r"mp::|std::", "", t0)[:60]
+            if kind == "complementarity" and len(f.params) == 1:
+                allowed = (INF_LO, INF_HI)
+        elif name == "PropagateIfThenResultIntoCondition":
+            kind, allowed, why, label = "ifthen-condition", LOGIC, "the condition of if-then-else is a logical value", name
+        elif name in ("PropagateResult2LinTerms", "PropagateResult2QuadTerms"):
+            kind, allowed, why, label = "terms", (INF_LO, INF_HI), "bounds of a sum say nothing about one term's variable", name
+        elif name in ("PropagateResult2Vars", "PropagateResult2Args", "PropagateResult2QuadAndLinTerms"):
+            continue                      # forwarders of the bounds they were given
+        else:
+            continue
+        if (name, label) in seen_d:
+            continue
+        seen_d.add((name, label))
+        ord_ = {}
+        for c in f.walk():
+            if c["k"] not in ("CXXMemberCallExpr", "CallExpr"):
+                continue
+            cn = (c.get("callee") or "").split("::")[-1]
+            a = call_args(c)
+            consumes = (cn == "PropagateResultOfInitExpr" and len(a) == 4) or cn == "PropagateResult2Vars" or \
+                (cn == "PropagateResult2Args" and len(a) == 4 and not _re.search(r"LinTerms|QuadTerms", (strip(a[0]).get("ct") or strip(a[0]).get("t") or ""))) or \
+                (cn == "PropagateResult" and len(a) == 4 and kind == "complementarity")
+            if not consumes:
+                continue
+            lo, hi = normb(f, a[1]), normb(f, a[2])
+            tgt = _re.sub(r"\s+", "", render(a[0]))[:30]
+            ord_[(cn, tgt)] = ord_.get((cn, tgt), 0) + 1
+            key = "down|%s|%s(%s)#%d" % (label, cn, tgt, ord_[(cn, tgt)])
+            d1.check(lo in allowed[0] and hi in allowed[1], key, short_loc(c.get("l")),
+                     "%s: argument bounds [%s, %s]" % (label, lo, hi),
+                     "%s hands the bounds [%s, %s] down to `%s`; sound are lower %s / upper %s (%s): an argument's variable is narrowed to values it need not have, which cuts feasible points off" %
+                     (label, lo, hi, tgt, sorted(allowed[0]), sorted(allowed[1]), why))
     return rep
